@@ -180,7 +180,13 @@ impl Opcode for CallDataCopy {
 
             let polling_interval = vm.watchdog().poll_every();
 
+            #[cfg(smlxl_storage_layout_extractor_verif)]
+            crate::verif::loop_enter(crate::verif::Site::CallDataCopy);
+
             for (count, internal_offset) in (0..size_limit).step_by(32).enumerate() {
+                #[cfg(smlxl_storage_layout_extractor_verif)]
+                crate::verif::tick(crate::verif::Site::CallDataCopy);
+
                 // If we have been told to stop, stop and return an error
                 if count % polling_interval == 0 && vm.watchdog().should_stop() {
                     Err(Error::StoppedByWatchdog).locate(instruction_pointer)?;
@@ -336,7 +342,13 @@ impl Opcode for CodeCopy {
 
             let polling_interval = vm.watchdog().poll_every();
 
+            #[cfg(smlxl_storage_layout_extractor_verif)]
+            crate::verif::loop_enter(crate::verif::Site::CodeCopy);
+
             for (count, internal_offset) in (0..size_limit).step_by(32).enumerate() {
+                #[cfg(smlxl_storage_layout_extractor_verif)]
+                crate::verif::tick(crate::verif::Site::CodeCopy);
+
                 // If we have been told to stop, stop and return an error
                 if count % polling_interval == 0 && vm.watchdog().should_stop() {
                     Err(Error::StoppedByWatchdog).locate(instruction_pointer)?;
@@ -505,7 +517,13 @@ impl Opcode for ExtCodeCopy {
 
             let polling_interval = vm.watchdog().poll_every();
 
+            #[cfg(smlxl_storage_layout_extractor_verif)]
+            crate::verif::loop_enter(crate::verif::Site::ExtCodeCopy);
+
             for (count, internal_offset) in (0..size_limit).step_by(32).enumerate() {
+                #[cfg(smlxl_storage_layout_extractor_verif)]
+                crate::verif::tick(crate::verif::Site::ExtCodeCopy);
+
                 // If we have been told to stop, stop and return an error
                 if count % polling_interval == 0 && vm.watchdog().should_stop() {
                     Err(Error::StoppedByWatchdog).locate(instruction_pointer)?;
@@ -672,7 +690,13 @@ impl Opcode for ReturnDataCopy {
 
             let polling_interval = vm.watchdog().poll_every();
 
+            #[cfg(smlxl_storage_layout_extractor_verif)]
+            crate::verif::loop_enter(crate::verif::Site::ReturnDataCopy);
+
             for (count, internal_offset) in (0..size_limit).step_by(32).enumerate() {
+                #[cfg(smlxl_storage_layout_extractor_verif)]
+                crate::verif::tick(crate::verif::Site::ReturnDataCopy);
+
                 // If we have been told to stop, stop and return an error
                 if count % polling_interval == 0 && vm.watchdog().should_stop() {
                     Err(Error::StoppedByWatchdog).locate(instruction_pointer)?;
